@@ -1,11 +1,136 @@
-/- Model-driver operations of cluster D (see Driver/Main.lean): generated (Gen) and hand-written (Model) code models. -/
+/- Model-driver operations of cluster D (C06, C10, C18): generated (Gen) and hand-written (Model) code models. -/
 import PdbVerif.Driver.Json
+import PdbVerif.Driver.DCommon
+import PdbVerif.Gen.Consts
+import PdbVerif.Gen.Mat
+import PdbVerif.Model.Superpose
+import PdbVerif.Model.Transform
+import PdbVerif.Model.Align
 
 namespace Driver.ModelD
-open Lean Driver
+open Lean Driver Driver.D Py
+
+def methodOf (s : String) : Option Model.Method :=
+  let l := s.toLower                                    -- method.lower()
+  if l = "svd" then some .svd else if l = "quaternion" then some .quaternion else none
+
+def eigOfJson (j : Json) (k : String) : Except String (List (Rat × Vec4 Rat)) := do
+  let a ← jArr j k
+  a.toList.mapM (fun p => do
+    let pr ← asArr p
+    if pr.size != 2 then throw "eig: [l, [q0,q1,q2,q3]] expected"
+    let l ← asRat pr[0]!
+    let q ← asVec4 pr[1]!
+    pure (l, q))
+
+def orthDefect (M : Mat3 Rat) : Rat :=
+  maxR [maxAbsDiff3 (M.mul M.T) Mat3.one, maxAbsDiff3 (M.T.mul M) Mat3.one]
+
+def svdContractJ (A V : Mat3 Rat) (s : Vec3 Rat) (Wt : Mat3 Rat) : Json :=
+  Json.mkObj [("factor", ratJ (maxAbsDiff3 A ((V.mul (Mat3.diag s.x s.y s.z)).mul Wt))),
+              ("orthV", ratJ (orthDefect V)), ("orthW", ratJ (orthDefect Wt)),
+              ("ordered", .bool (decide (s.y ≤ s.x) && decide (s.z ≤ s.y) && decide (0 ≤ s.z))),
+              ("detWV", ratJ (Mat3.det (Wt.T.mul V.T)))]
+
+def eigContractJ (F : Mat4 Rat) (lU : List (Rat × Vec4 Rat)) : Json :=
+  let i := Model.argmax (lU.map Prod.fst)
+  match lU[i]? with
+  | none => Json.mkObj [("index", .str "out of range")]
+  | some (l, q) =>
+    let Fq := F.mulVec q
+    Json.mkObj [("residual", ratJ (maxR [absR (Fq.w - l * q.w), absR (Fq.x - l * q.x), absR (Fq.y - l * q.y), absR (Fq.z - l * q.z)])),
+                ("unit", ratJ (absR (Vec4.dot q q - 1))),
+                ("lambda", ratJ l), ("index", intJ i),
+                ("isMax", .bool (lU.all (fun p => decide (p.1 ≤ l))))]
+
+def matResJ (r : Except Err (Mat3 Rat)) : Json := exceptJ mat3J r
+
+/-! ### C10 -/
+
+def transformOfJson (j : Json) : Except String (Model.Transform × Model.Sel) := do
+  let kind ← jStr j "kind"
+  let mask ← jBoolList j "sel"
+  let sel := maskSel mask
+  match kind with
+  | "translation" => pure (.translation (← jVec3 j "vect"), sel)
+  | "rot_axis" => pure (.rotAxis (← jRat j "c") (← jRat j "s") (← jVec3 j "axis"), sel)
+  | "rot_euler" =>
+    pure (.rotEuler (← jRat j "ca") (← jRat j "sa") (← jRat j "cb") (← jRat j "sb") (← jRat j "cg") (← jRat j "sg"), sel)
+  | "rot_mat" => pure (.rotMat (← jMat3 j "mat"), sel)
+  | _ => throw s!"unknown transform kind {kind}"
+
+def optCenter (j : Json) : Except String (Option (Vec3 Rat)) :=
+  if hasField j "center" then do pure (some (← jVec3 j "center")) else pure none
 
 def op (name : String) (j : Json) : Except String (Option Json) := do
   match name with
+  /- ---- C06 ---- -/
+  | "kabsch" =>
+    let P ← jPoints j "P"; let Q ← jPoints j "Q"
+    let V ← jMat3 j "V"; let s ← jVec3 j "s"; let Wt ← jMat3 j "Wt"
+    let r := Model.kabsch (fun _ => (V, s, Wt)) Gen.kabsch_eps P Q
+    pure (some (Json.mkObj [("U", matResJ r), ("contract", svdContractJ (Model.covariance P Q) V s Wt)]))
+  | "quat" =>
+    let P ← jPoints j "P"; let Q ← jPoints j "Q"
+    let lU ← eigOfJson j "eig"
+    let r := Model.quaternion (fun _ => lU) Gen.quat_eps P Q
+    pure (some (Json.mkObj [("U", matResJ r), ("contract", eigContractJ (Gen.quat_F (Model.dotPtQ P Q)) lU)]))
+  | "guard" =>
+    -- inputs that must be rejected before any factorisation is requested
+    let P ← jPoints j "P"; let Q ← jPoints j "Q"
+    let m ← jStr j "method"
+    let r := Model.getRotationMatrix (fun _ => (Mat3.one, ⟨1, 1, 1⟩, Mat3.one)) (fun _ => [(1, ⟨1, 0, 0, 0⟩)])
+      Gen.kabsch_eps Gen.quat_eps (methodOf m) P Q
+    pure (some (Json.mkObj [("U", match r with | .error e => errJ e | .ok _ => .str "accepted")]))
+  | "superpose_sel" =>
+    let X ← jPoints j "xyz"; let sm ← jPoints j "selMob"; let st ← jPoints j "selTar"
+    let m ← jStr j "method"
+    let svd : Mat3 Rat → Mat3 Rat × Vec3 Rat × Mat3 Rat ←
+      if hasField j "V" then do
+        let V ← jMat3 j "V"; let s ← jVec3 j "s"; let Wt ← jMat3 j "Wt"
+        pure (fun _ => (V, s, Wt))
+      else pure (fun _ => (Mat3.one, ⟨1, 1, 1⟩, Mat3.one))
+    let eig : Mat4 Rat → List (Rat × Vec4 Rat) ←
+      if hasField j "eig" then do let lU ← eigOfJson j "eig"; pure (fun _ => lU) else pure (fun _ => [])
+    let r := Model.superposeSelection (Model.getRotationMatrix svd eig Gen.kabsch_eps Gen.quat_eps (methodOf m)) X sm st
+    pure (some (Json.mkObj [("xyz", exceptJ pointsJ r)]))
+  /- ---- C10 ---- -/
+  | "transform_seq" =>
+    let db ← jAtoms j "db"
+    let steps ← jArr j "steps"
+    let ts ← steps.toList.mapM transformOfJson
+    pure (some (exceptJ atomsJ (Model.transformSeq ts db)))
+  | "rotate_xyz" =>
+    let X ← jPoints j "X"
+    let kind ← jStr j "kind"
+    let c ← optCenter j
+    match kind with
+    | "rot_axis" => pure (some (pointsJ (Model.rotAxis (← jRat j "c") (← jRat j "s") (← jVec3 j "axis") c X)))
+    | "rot_euler" =>
+      pure (some (pointsJ (Model.rotEuler (← jRat j "ca") (← jRat j "sa") (← jRat j "cb") (← jRat j "sb") (← jRat j "cg") (← jRat j "sg") c X)))
+    | "rot_mat" => pure (some (pointsJ (Model.rotate (← jMat3 j "mat") c X)))
+    | _ => throw s!"unknown rotate kind {kind}"
+  | "axis_angle" =>
+    let ax := Model.randAxis (← jRat j "ct") (← jRat j "st") (← jRat j "cp") (← jRat j "sp")
+    let an := Model.randAngle (← jRat j "twoPi") (← jRat j "u3")
+    pure (some (Json.mkObj [("axis", vec3J ax), ("angle", ratJ an)]))
+  /- ---- C18 ---- -/
+  | "align" =>
+    let db ← jAtoms j "db"
+    let mask ← jBoolList j "sel"
+    let axis ← jStr j "axis"
+    let cp ← jRat j "cp"; let sp ← jRat j "sp"; let ct ← jRat j "ct"; let st ← jRat j "st"
+    let v ← jVec3 j "v"; let r ← jRat j "r"
+    let res := Model.alignPcaVect cp sp ct st axis db
+    let spherical := maxR [absR (v.x - r * st * cp), absR (v.y - r * st * sp), absR (v.z - r * ct),
+                           absR (cp * cp + sp * sp - 1), absR (ct * ct + st * st - 1)]
+    pure (some (Json.mkObj [("table", exceptJ atomsJ res), ("spherical", ratJ spherical),
+                            ("nsel", intJ ((Model.getXYZ (maskSel mask) db).length))]))
+  | "align_axis" =>
+    -- an axis name outside x, y, z
+    let axis ← jStr j "axis"
+    let db ← jAtoms j "db"
+    pure (some (Json.mkObj [("table", exceptJ atomsJ (Model.alignPcaVect 1 0 1 0 axis db))]))
   | _ => pure none
 
 end Driver.ModelD
